@@ -247,6 +247,12 @@ def checkExit (cfg : Cfg) (b : Book) : Book :=
       b.chs.any (fun ch => throughout b P ch r && decide (ch.recvs.length < ch.allowTotal) && !ch.closedSeen &&
         P.evs.any (fun v => !ch.recvs.contains v && !(decide (cfg.timeout > 0) && b.tmos.contains v))))
   let b : Book := if lost then b.flag "violated:lost" else b
+  -- "each (event, subscriber) pair ends in exactly ONE of a delivery or one OnPubTimeout call": the endings of an event (receptions + timeout
+  -- callbacks; event values are unique per scenario) cannot outnumber the subscribers that existed before the call returned
+  let over := b.pubs.any (fun P =>
+    let subsBefore := (b.chs.filter (fun ch => match P.retAt with | some r => decide (ch.subAt < r) | none => true)).length
+    P.evs.any (fun v => decide (b.tmos.count v + (b.chs.map (fun ch => ch.recvs.count v)).sum > subsBefore)))
+  let b : Book := if over then b.flag "violated:a-pair-ended-both-in-a-delivery-and-a-timeout" else b
   if !b.live then b else
   let stuck := b.pubs.any (fun P => P.retAt.isNone) || b.chs.any (fun ch => ch.subretAt.isNone)
   let b : Book := if stuck then b.flag "violated:call-never-returned-although-every-subscriber-is-received-from" else b
